@@ -394,4 +394,60 @@ theorem xor_sibling_odd (q k : Nat) : Gen.buddyOf (2 ^ k) ((2 * q + 1) * 2 ^ k) 
   · have : ¬ k = j := by omega
     simp [h, this]
 
+/-! ### memory pressure as the cache sees it -/
+
+theorem foldl_max_ge (l : List Nat) (init : Nat) : init ≤ l.foldl max init ∧ ∀ x ∈ l, x ≤ l.foldl max init := by
+  induction l generalizing init with
+  | nil => simp
+  | cons a l ih =>
+    simp only [List.foldl_cons]
+    obtain ⟨h1, h2⟩ := ih (max init a)
+    refine ⟨Nat.le_trans (Nat.le_max_left _ _) h1, ?_⟩
+    intro x hx
+    rcases List.mem_cons.mp hx with e | e
+    · subst e; exact Nat.le_trans (Nat.le_max_right _ _) h1
+    · exact h2 x e
+
+theorem foldl_max_mem (l : List Nat) (init : Nat) : l.foldl max init = init ∨ l.foldl max init ∈ l := by
+  induction l generalizing init with
+  | nil => simp
+  | cons a l ih =>
+    simp only [List.foldl_cons]
+    rcases ih (max init a) with h | h
+    · rw [h]
+      rcases Nat.le_total init a with h' | h'
+      · right; rw [Nat.max_eq_right h']; simp
+      · left; exact Nat.max_eq_left h'
+    · right; exact List.mem_cons_of_mem _ h
+
+/-- as soon as one free block of at least 10 % of the segment (plus its header unit) exists, the cache's
+memory-pressure test is off: `check_limits` stops evicting for memory reasons -/
+theorem not_low_of_free_block {a : Arena} {segment off b : Nat} (hm : (off, b) ∈ a.freeBlocks)
+    (hpos : 0 < segment / 10) (hb : segment / 10 ≤ 2 ^ b - Gen.alignment) : a.notEnoughMemory segment = false := by
+  unfold Arena.notEnoughMemory Cppcms.C07.Gen.processNotEnoughMemory Arena.maxFreeChunk
+  have hbm : b ∈ a.freeBlocks.map (·.2) := List.mem_map.mpr ⟨(off, b), hm, rfl⟩
+  have hge := (foldl_max_ge (a.freeBlocks.map (·.2)) 0).2 b hbm
+  have hb1 : 1 ≤ b := by
+    rcases Nat.eq_zero_or_pos b with e | e
+    · subst e; simp [Gen.alignment, Gen.alignmentBits] at hb; omega
+    · exact e
+  generalize hM : (a.freeBlocks.map (·.2)).foldl max 0 = M at hge
+  have hMmem : M ∈ a.freeBlocks.map (·.2) := by
+    rcases foldl_max_mem (a.freeBlocks.map (·.2)) 0 with h | h
+    · rw [hM] at h; omega
+    · rw [hM] at h; exact h
+  obtain ⟨x, hx, hxM⟩ := List.mem_map.mp hMmem
+  have hlen : 1 ≤ (a.freeBlocks.filter (·.2 == M)).length := by
+    apply List.length_pos_of_mem (a := x)
+    simp [List.mem_filter, hx, hxM]
+  have hpow : 2 ^ b ≤ 2 ^ M := Nat.pow_le_pow_right (by decide) hge
+  cases M with
+  | zero => omega
+  | succ M' =>
+    simp only [decide_eq_false_iff_not, Nat.not_lt]
+    calc segment / 10 ≤ 2 ^ b - Gen.alignment := hb
+      _ ≤ 2 ^ (M' + 1) - Gen.alignment := Nat.sub_le_sub_right hpow _
+      _ = 1 * (2 ^ (M' + 1) - Gen.alignment) := (Nat.one_mul _).symm
+      _ ≤ (a.freeBlocks.filter (·.2 == M' + 1)).length * (2 ^ (M' + 1) - Gen.alignment) := Nat.mul_le_mul_right _ hlen
+
 end Cppcms.C08.Buddy
